@@ -56,7 +56,7 @@ def _reverse_slice(slice_in: slice) -> slice:
     stop = 0 if slice_in.stop is None else slice_in.stop + 1
     mult = int(numpy.floor((stop - slice_in.start)/slice_in.step))
     final_entry = slice_in.start + mult*slice_in.step
-    return slice(final_entry, slice_in.start-slice_in.step, -slice_in.step)
+    return slice(final_entry, slice_in.start + 1, -slice_in.step)
 
 
 def _find_slice_overlap(
@@ -98,13 +98,17 @@ def _find_slice_overlap(
         # find minimum multiplier so that slice_in.start + mult*slice_in.step >= start_ind
         #    mult >= (start_ind - slice_in.start)/slice_in.step
         child_start = 0 if start_ind <= slice_in.start else \
-            int(numpy.ceil((start_ind - slice_in.start)/slice_in.step))
-        parent_start = slice_in.start - start_ind + child_start*slice_in.step
-        # find end - maximum multiplier so that slice_in.start + mult*slice_in.step <= stop_ind
-        #    mult <= (stop_ind - slice_in.start)/slice_in.step
+            (start_ind - slice_in.start + slice_in.step - 1)//slice_in.step
+        # find end - minimum multiplier so that slice_in.start + mult*slice_in.step >= max_ind
+        #    mult >= (max_ind - slice_in.start)/slice_in.step
         max_ind = min(slice_in.stop, stop_ind)
-        child_stop = int(numpy.floor((max_ind - slice_in.start)/slice_in.step))
-        parent_stop = slice_in.start - start_ind + child_stop*slice_in.step
+        child_stop = (max_ind - slice_in.start + slice_in.step - 1)//slice_in.step
+        if child_start >= child_stop:
+            # the slice steps over this interval entirely
+
+            return None, None
+        parent_start = slice_in.start - start_ind + child_start*slice_in.step
+        parent_stop = min(slice_in.start - start_ind + child_stop*slice_in.step, stop_ind - start_ind)
     else:
         if slice_in.start < start_ind or (slice_in.stop is not None and slice_in.stop >= stop_ind):
             # there is no overlap
@@ -113,16 +117,22 @@ def _find_slice_overlap(
             return None, None
 
         # find minimum multiplier so that slice_in.start + mult*slice_in.step <= stop_ind-1
-        #    mult >= (stop_ind - 1 - slice_in.start)/slice_in.step
-        child_start = 0 if slice_in.start < stop_ind else int(numpy.ceil((stop_ind - 1 - slice_in.start)/slice_in.step))
-        parent_start = slice_in.start - start_ind + child_start*slice_in.step
-        # find end - first multiplier so that slice_in.start + mult*slice_in.step < start_ind - 1
-        #    mult > (start_ind - slice_in.start)/slice_in.step
+        #    mult >= (slice_in.start - (stop_ind - 1))/(-slice_in.step)
+        child_start = 0 if slice_in.start < stop_ind else \
+            (slice_in.start - stop_ind + 1 - slice_in.step - 1)//(-slice_in.step)
+        # find end - minimum multiplier so that slice_in.start + mult*slice_in.step <= min_ind
+        #    mult >= (slice_in.start - min_ind)/(-slice_in.step)
         if slice_in.stop is None:
             min_ind = max(start_ind-1, -1)
         else:
             min_ind = max(start_ind-1, slice_in.stop)
-        child_stop = int(numpy.ceil((min_ind - slice_in.start)/slice_in.step))
+        child_stop = (slice_in.start - min_ind - slice_in.step - 1)//(-slice_in.step)
+        if child_start >= child_stop:
+            # the slice steps over this interval entirely
+
+            # noinspection PyTypeChecker
+            return None, None
+        parent_start = slice_in.start - start_ind + child_start*slice_in.step
         parent_stop = slice_in.start - start_ind + child_stop*slice_in.step
         if parent_stop < 0:
             parent_stop = None
